@@ -388,6 +388,8 @@ def reroute_strategy():
                                       st.sampled_from(['1', 'text/zq', 'a=b; Path=/', '/elsewhere', 'v1', 'v2'])), max_size=4),
         'chunks': st.lists(st.sampled_from([b'', b'abc', b'\xff\x00', b'x' * 5000, b'line\n']), max_size=4),
         'reads_body': st.booleans(),
+        # a WSGI application is any callable taking two positional arguments, whatever they are called
+        'shape': st.sampled_from(['named', 'named', 'renamed', 'varargs', 'partial', 'instance', 'lambda']),
     })
     return st.tuples(target, st.sampled_from(['endpoint', 'raise-endpoint', 'raise-middleware', 'raise-render']),
                      st.sampled_from(['GET', 'POST', 'PUT']), st.sampled_from(['', 'a=1&b=2']),
@@ -416,7 +418,26 @@ def reroute_body(case, ctx):
             got['body'] = environ['wsgi.input'].read()
         start_response(tspec['status'], [tuple(h) for h in tspec['headers']])
         return list(tspec['chunks'])
-    rr = RerouteWSGI(target)
+    shape = tspec.get('shape', 'named')
+    if shape == 'renamed':
+        def target_(env, start):
+            return target(env, start)
+    elif shape == 'varargs':
+        def target_(*args):
+            return target(*args)
+    elif shape == 'partial':
+        import functools
+        target_ = functools.partial(lambda tag, e, s: target(e, s), 'zq')
+    elif shape == 'instance':
+        class _T(object):
+            def __call__(self, e, s):
+                return target(e, s)
+        target_ = _T()
+    elif shape == 'lambda':
+        target_ = lambda e, s: target(e, s)     # noqa: E731
+    else:
+        target_ = target
+    rr = RerouteWSGI(target_)
 
     class Plain(Middleware):
         def request(self, next):
